@@ -222,6 +222,15 @@ func init() {
 		"strings.ToUpper": func(fr *frame, args []value) value { return fr.i.ps.caseMap(args[0], true) },
 		"strings.ToLower": func(fr *frame, args []value) value { return fr.i.ps.caseMap(args[0], false) },
 		"unique.Make[string]": func(fr *frame, args []value) value { return args[0] },
+		// hash/maphash: seeds are random per process, so a hash is an arbitrary
+		// value per distinct content, consistent within one run
+		"hash/maphash.MakeSeed": func(fr *frame, args []value) value { return structure{uint64(1)} },
+		"hash/maphash.String": func(fr *frame, args []value) value {
+			return fr.i.ps.processHash("maphash:" + concStr(args[1], "maphash.String"))
+		},
+		"hash/maphash.Bytes": func(fr *frame, args []value) value {
+			return fr.i.ps.processHash("maphash:" + concStr(normStr(args[1].([]value)), "maphash.Bytes"))
+		},
 		"strings.TrimRight": func(fr *frame, args []value) value {
 			return fr.i.ps.trimElems(args[0], concStr(args[1], "TrimRight cutset"), false, true)
 		},
@@ -881,6 +890,7 @@ func extMuLock(fr *frame, args []value) value {
 	s.block(g, func() bool { return !st.locked && st.readers == 0 }, "Mutex.Lock")
 	st.locked = true
 	g.vc = g.vc.join(st.vc)
+	g.vc = g.vc.join(st.rvc)
 	return nil
 }
 
@@ -917,7 +927,7 @@ func extMuRUnlock(fr *frame, args []value) value {
 	g := s.cur
 	st := ps.muOf(args[0].(*value))
 	s.tick(g)
-	st.vc = st.vc.join(g.vc)
+	st.rvc = st.rvc.join(g.vc)
 	st.readers--
 	s.preempt(g)
 	return nil
@@ -1157,4 +1167,21 @@ func (ps *pathState) pathWeight() (*big.Rat, string) {
 	// solution set IS the product of its projections
 	_ = inProj
 	return vol, ""
+}
+
+
+func (ps *pathState) processHash(key string) value {
+	if v, ok := ps.memo[key]; ok {
+		return v
+	}
+	if ps.stubs != nil {
+		ps.stubs["hash/maphash (per-process seed: arbitrary value per content)"] = true
+	}
+	hv := ps.newInput(key, "env", bvSort(64))
+	if ps.taxHashBits > 0 && ps.taxHashBits < 64 {
+		ps.addPC(ps.ts.BvCmp(OpBvUlt, hv, ps.ts.BV(uint64(1)<<uint(ps.taxHashBits), 64)))
+	}
+	v := mkval(types.Uint64, hv)
+	ps.memo[key] = v
+	return v
 }
